@@ -308,7 +308,7 @@ def run_harness(h, cfg, workdir, trace=False):
 
 def run_all(harnesses, cfg_of, workdir, jobs=None):
     # memory-bound machine (62 GB, no swap): cap concurrency so that jobs x per-harness limit fits
-    jobs = jobs or int(os.environ.get("VERIF_JOBS", "6"))
+    jobs = jobs or int(os.environ.get("VERIF_JOBS", "8"))
     os.makedirs(workdir, exist_ok=True)
     results = []
     with ThreadPoolExecutor(max_workers=jobs) as ex:
